@@ -918,9 +918,34 @@ func (ex *Exec) widenLoop(fr *Frame, st0 *State, hdr *ssa.BasicBlock, entryPhi m
 		}
 	}
 	firstPhi := map[*ssa.Phi]Val{}
+	ptrAlts := map[*ssa.Phi][]Val{}
+	addAlt := func(p *ssa.Phi, v Val) bool {
+		added := false
+		var leaves func(v Val)
+		leaves = func(v Val) {
+			switch x := v.(type) {
+			case *Choice:
+				leaves(x.A)
+				leaves(x.B)
+			case *Ptr:
+				for _, a := range ptrAlts[p] {
+					if q, ok := a.(*Ptr); ok && SamePtr(q, x) {
+						return
+					}
+				}
+				ptrAlts[p] = append(ptrAlts[p], x)
+				added = true
+			}
+		}
+		leaves(v)
+		return added
+	}
 	for _, p := range phis {
 		firstPhi[p] = entryPhi[p]
 		phiTaint[p] = TaintOf(entryPhi[p])
+		if _, isPtr := entryPhi[p].(*Ptr); isPtr {
+			addAlt(p, entryPhi[p])
+		}
 	}
 	var out Outcome
 	for iter := 0; ; iter++ {
@@ -951,6 +976,15 @@ func (ex *Exec) widenLoop(fr *Frame, st0 *State, hdr *ssa.BasicBlock, entryPhi m
 		f.loopHdr[hdr] = lc
 		pre := map[*ssa.Phi]Val{}
 		for _, p := range phis {
+			if alts := ptrAlts[p]; len(alts) > 0 {
+				// a loop-carried pointer ranges over the finitely many addresses observed (entry and back edges)
+				var v Val = alts[len(alts)-1]
+				for i := len(alts) - 2; i >= 0; i-- {
+					v = &Choice{Cond: sym.Fresh(sym.Bool, "loop:"+p.Name()+".sel", phiTaint[p]), A: alts[i], B: v}
+				}
+				pre[p] = v
+				continue
+			}
 			pre[p] = havocVal(firstPhi[p], phiTaint[p], "loop:"+p.Name())
 			if pre[p] == nil {
 				pre[p] = sym.Fresh(sym.Any, "loop:"+p.Name(), phiTaint[p])
@@ -979,6 +1013,14 @@ func (ex *Exec) widenLoop(fr *Frame, st0 *State, hdr *ssa.BasicBlock, entryPhi m
 				}
 			}
 			for p, v := range lc.backPhis[bi] {
+				if len(ptrAlts[p]) > 0 && onlyPtrLeaves(v) {
+					if addAlt(p, v) {
+						changed = true
+					}
+				} else if len(ptrAlts[p]) > 0 {
+					ptrAlts[p] = nil // not a finite set of addresses: havoc
+					changed = true
+				}
 				t := TaintOf(v)
 				if phiTaint[p]|t != phiTaint[p] {
 					phiTaint[p] |= t
@@ -999,6 +1041,17 @@ func (ex *Exec) widenLoop(fr *Frame, st0 *State, hdr *ssa.BasicBlock, entryPhi m
 		}
 	}
 	return out
+}
+
+// onlyPtrLeaves: v is an address or a choice between addresses.
+func onlyPtrLeaves(v Val) bool {
+	switch x := v.(type) {
+	case *Ptr:
+		return true
+	case *Choice:
+		return onlyPtrLeaves(x.A) && onlyPtrLeaves(x.B)
+	}
+	return false
 }
 
 func firstPos(b *ssa.BasicBlock) token.Pos {
